@@ -162,6 +162,8 @@ impl<'a> Value<'a> {
         if let Value::Str(ArenaCow::Owned(s)) = self {
             let ptr = s.as_bytes().as_ptr();
             if pool.contains(ptr) {
+                #[cfg(feature = "verif")]
+                crate::verif::on_pool_return();
                 unsafe {
                     pool.dealloc(
                         std::ptr::NonNull::new_unchecked(ptr.cast_mut()),
@@ -495,6 +497,8 @@ impl<'a> Runtime<'a> {
                     }
 
                     if let Some(offset) = frame_offset {
+                        #[cfg(feature = "verif")]
+                        crate::verif::on_frame_reset();
                         unsafe { self.frame.reset(offset) };
                     }
                 }
@@ -522,6 +526,8 @@ impl<'a> Runtime<'a> {
         self.hoist_block_functions(block);
         for stmt in block.stmts {
             if self.stmt_is_pruned(stmt) {
+                #[cfg(feature = "verif")]
+                crate::verif::on_stmt_skipped(self.bound_stmt_id(stmt).map(|id| id.0));
                 #[cfg(test)]
                 {
                     self.skipped_stmt_count = self
@@ -531,6 +537,8 @@ impl<'a> Runtime<'a> {
                 }
                 continue;
             }
+            #[cfg(feature = "verif")]
+            crate::verif::on_stmt_executed(self.bound_stmt_id(stmt).map(|id| id.0));
             match self.exec_stmt(stmt)? {
                 ExecFlow::Continue => {}
                 flow @ (ExecFlow::Return(..) | ExecFlow::Break | ExecFlow::LoopContinue) => {
@@ -560,6 +568,8 @@ impl<'a> Runtime<'a> {
         if let Some(function_id) = id
             && self.function_is_pruned(function_id)
         {
+            #[cfg(feature = "verif")]
+            crate::verif::on_pruned_function_def();
             return;
         }
 
@@ -1544,6 +1554,8 @@ impl<'a> Runtime<'a> {
     /// then reconstructed on the caller's frame level, so the staging is
     /// reclaimed and the return value arrives on frame.
     fn relocate_return_value(&self, val: Value<'a>, frame_offset: usize) -> Value<'a> {
+        #[cfg(feature = "verif")]
+        crate::verif::on_frame_reset();
         let is_frame_string = match &val {
             Value::Str(ArenaCow::Owned(s)) => !std::ptr::eq(s.arena(), self.arena),
             _ => false,
